@@ -83,3 +83,29 @@ Proof.
     rewrite forallb_forall in H. specialize (H 1 (or_intror (or_introl eq_refl))). apply andb_prop in H. destruct H as [H1 H2].
     apply eqb_prop in H1. apply N.eqb_eq in H2. unfold mod_c3_1276 in H1, H2. cbn [N.eqb Pos.eqb] in H1, H2. auto.
 Qed.
+
+(* ---- the named functions are what goes over the bus: the transactions of the SX1272 operations, in order, as a function of the
+   bytes the chip answers to the reads (so with a chip whose registers read back what was written, bit 0 after modulation then
+   packet parameters is the decision: sx1272_ldro_survives_prepare) *)
+From LoraV Require Import Proofs.PhySeq Proofs.PhySeq127 Gen.PhyTables.
+Theorem seq_set_mod_1272 sfv bwv crv l c1 c2 rest :
+  spi_seq (set_mod_1272 sfv bwv crv l) ([c1] :: [c2] :: rest) =
+  [ds7_read s7_Register_RegModemConfig1; ds7_write s7_Register_RegModemConfig1 (mod_c1_1272 c1 bwv crv l);
+   ds7_read s7_Register_RegModemConfig2; ds7_write s7_Register_RegModemConfig2 (N.lor (N.land c2 15) (u8 (sfv * 16)))].
+Proof. reflexivity. Qed.
+
+Theorem seq_set_pkt_1272 g pre im len crc iq c1 rest : h_variant g = V1272 ->
+  spi_seq (set_pkt_127 g pre im len crc iq) ([c1] :: rest) =
+  [ds7_write s7_Register_RegPreambleMsb (hi8 pre); ds7_write s7_Register_RegPreambleLsb (lo8 pre);
+   ds7_read s7_Register_RegModemConfig1; ds7_write s7_Register_RegModemConfig1 (pkt_c1_1272 c1 im crc)] ++
+  (if im then [ds7_write s7_Register_RegPayloadLength len] else []) ++
+  [ds7_write s7_Register_RegInvertiq (N.lor 0x26 (if iq then 64 else 1)); ds7_write s7_Register_RegInvertiq2 (if iq then 0x19 else 0x1d)].
+Proof. intros H. unfold set_pkt_127. rewrite H. destruct im; reflexivity. Qed.
+
+Theorem seq_set_mod_1276_config3 sfv bwv crd l bw freq c2 c1 c1' c3 rest :
+  exists tail, spi_seq (set_mod_1276 false sfv bwv crd l bw freq) ([c2] :: [c1] :: [c1'] :: [c3] :: rest) =
+  [ds7_read s7_Register_RegModemConfig2; ds7_write s7_Register_RegModemConfig2 (N.lor (N.land c2 0x0f) (N.land (u8 (sfv * 16)) 0xf0));
+   ds7_read s7_Register_RegModemConfig1; ds7_write s7_Register_RegModemConfig1 (N.lor (N.land c1 0x0f) (u8 (bwv * 16)));
+   ds7_read s7_Register_RegModemConfig1; ds7_write s7_Register_RegModemConfig1 (N.lor (N.land c1' 0xf1) (u8 ((crd - 4) * 2)));
+   ds7_read s7_Register_RegModemConfig3; ds7_write s7_Register_RegModemConfig3 (mod_c3_1276 c3 l)] ++ tail.
+Proof. eexists. reflexivity. Qed.
